@@ -81,6 +81,8 @@ pub enum IoEvent {
 pub enum FaultKind {
     ReadEof,
     ReadErr,
+    /// a read error of kind Interrupted (still an error: the stream is not looked at again)
+    ReadErrInterrupted,
     WriteErr,
 }
 
@@ -157,6 +159,7 @@ struct Transport {
     readable: VecDeque<u8>,
     eof_readable: bool,
     read_err: bool,
+    read_err_interrupted: bool,
     pending: VecDeque<u8>,
     pending_eof: bool,
     eof_delivered: bool,
@@ -477,7 +480,7 @@ impl St {
 
     fn next_time(&self) -> Option<u64> {
         let now = verif::clock::now_ns();
-        let mut best: Option<u64> = if self.io_exists() && !self.io_gone() { verif::clock::next_deadline_ns().map(|d| d.max(now)) } else { None };
+        let mut best: Option<u64> = if self.io_exists() && !self.io_gone() { verif::clock::next_deadline_after_now_ns() } else { None };
         for s in &self.sleepers {
             if *s > now {
                 best = Some(best.map(|b| b.min(*s)).unwrap_or(*s));
@@ -567,6 +570,10 @@ impl St {
                         self.tr.eof_delivered = true;
                     }
                     FaultKind::ReadErr => self.tr.read_err = true,
+                    FaultKind::ReadErrInterrupted => {
+                        self.tr.read_err = true;
+                        self.tr.read_err_interrupted = true;
+                    }
                     FaultKind::WriteErr => self.tr.write_err = true,
                 }
                 self.raise();
@@ -669,6 +676,7 @@ impl World {
                     readable: VecDeque::new(),
                     eof_readable: false,
                     read_err: false,
+                    read_err_interrupted: false,
                     pending: VecDeque::new(),
                     pending_eof: false,
                     eof_delivered: false,
@@ -925,7 +933,8 @@ impl World {
         let mut st = self.lock();
         if st.tr.readable.is_empty() {
             if st.tr.read_err {
-                return Err(io::Error::new(io::ErrorKind::ConnectionReset, "injected read error"));
+                let kind = if st.tr.read_err_interrupted { io::ErrorKind::Interrupted } else { io::ErrorKind::ConnectionReset };
+                return Err(io::Error::new(kind, "injected read error"));
             }
             if st.tr.eof_readable {
                 return Ok(0);
